@@ -33,6 +33,9 @@ Record fmt := {
                                  npstructures' RaggedView2._get_row, which raises TypeError under NumPy 2 *)
   f_eager_write_fails : bool; (* the EAGER writer cannot serialise a table read from a file WITH header lines (VCF: the info
                                  column is then typed InfoDataclass and dump_csv.get_column raises KeyError) *)
+  f_write_needs_context : bool; (* the writer's make_header reads the table's header context and raises KeyError without it
+                                   (BAM): a materialised table — eager and derived, or the result of the concatenate
+                                   fall-back — cannot be written *)
   f_default_hdr : list Z;     (* what the EAGER writer emits for a table without header context (VCF: a default header) *)
   f_sid : list nat            (* SequenceID fields: parsing one from a buffer with ZERO records raises
                                  (string_array of a 0x0 matrix); [] once notes/C05.fix-2.diff is applied *)
@@ -436,7 +439,7 @@ Definition m_step (cc : fmt -> list lazy -> option lazy) (F : fmt) (hdr : list Z
   | OWrite r =>
       match nth_error regs r with
       | Some (TLazy l) => (regs, match l_write F hdr l with Some b => XBytes b | None => XErr end)
-      | Some (TEager t) => (regs, XBytes (s_write F hdr t))
+      | Some (TEager t) => (regs, if f_write_needs_context F then XErr else XBytes (s_write F hdr t))
       | None => (regs, XErr) end
   | OSel dst src ix =>
       match nth_error regs dst, nth_error regs src with
@@ -452,7 +455,7 @@ Definition m_step (cc : fmt -> list lazy -> option lazy) (F : fmt) (hdr : list Z
       | Some (TLazy l) => (regs, match l_set l with
                                  | [] => XRows (rows_of_cols dv (length (l_buf l)) (map (fun f => parse_col F f (l_buf l)) (all_fields F)))
                                  | _ => XErr end)
-      | Some (TEager t) => (regs, XRows t)
+      | Some (TEager t) => (regs, if f_write_needs_context F then XErr else XRows t)
       | None => (regs, XErr) end
   end.
 
@@ -491,7 +494,8 @@ Definition m_guard (F : fmt) (regs : list table) (o : op) : bool :=
   | OWrite r =>
       match nth_error regs r with
       | Some (TLazy l) => match l_write F [] l with Some _ => join_ok F l | None => false end
-      | _ => true end
+      | Some (TEager _) => negb (f_write_needs_context F)
+      | None => true end
   | OGet r f =>
       match nth_error regs r with
       | Some (TLazy l) => (f <? nfields F)%nat && match l_get F f l with Some _ => true | None => false end
@@ -507,7 +511,8 @@ Definition m_guard (F : fmt) (regs : list table) (o : op) : bool :=
   | OWriteRead r =>
       match nth_error regs r with
       | Some (TLazy l) => match l_set l with [] => true | _ => false end
-      | _ => true end
+      | Some (TEager _) => negb (f_write_needs_context F)
+      | None => true end
   | _ => true
   end.
 (* the guard evaluated along the model's own run *)
@@ -554,6 +559,7 @@ Definition erase (x : obs) : obs := match x with XBytes _ => XBytes [] | _ => x 
 Definition etable := (rows * bool)%type.
 Definition e_write (F : fmt) (hdr : list Z) (t : etable) : obs :=
   let h := if snd t then hdr else f_default_hdr F in
+  if f_write_needs_context F && negb (snd t) then XErr else
   match fst t, hdr with
   | _ :: _, _ :: _ => if f_eager_write_fails F then XErr else XBytes (s_write F h (fst t))
   | _, _ => XBytes (s_write F h (fst t))      (* an empty table: the header is written, then the writer returns *)
@@ -561,6 +567,9 @@ Definition e_write (F : fmt) (hdr : list Z) (t : etable) : obs :=
 Definition e_step (F : fmt) (hdr : list Z) (regs : list etable) (o : op) : list etable * obs :=
   match o with
   | OWrite r => match nth_error regs r with Some t => (regs, e_write F hdr t) | None => (regs, XErr) end
+  | OWriteRead r => match nth_error regs r with
+                    | Some t => (regs, if f_write_needs_context F && negb (snd t) then XErr else XRows (fst t))
+                    | None => (regs, XErr) end
   | _ => let '(rs, x) := s_step F hdr (map fst regs) o in
          (* the register an operation assigns holds a derived table: no header context *)
          let ctx := match o, x with
@@ -575,7 +584,7 @@ Fixpoint e_run (F : fmt) (hdr : list Z) (regs : list etable) (p : list op) : lis
   end.
 (* the eager implementation is the Spec exactly when the file has no header lines and the writer has no default header *)
 Definition eager_guard (F : fmt) (hdr : list Z) : bool :=
-  match hdr, f_default_hdr F with [], [] => true | _, _ => false end.
+  negb (f_write_needs_context F) && match hdr, f_default_hdr F with [], [] => true | _, _ => false end.
 
 (* ---------------------------------------------------------------- decision rules, named
    Bridge/C05.v proves (a) that the rules regenerated from /repo on every run (Gen/C05.v, translate/gen_c05.py) are
